@@ -250,6 +250,80 @@ func init() {
 							}
 						}
 					}},
+				{Name: "spatial-id-chain", ShardDepth: 1, Bounds: engine.Bounds{InputDev: -1},
+					Rule: "the single-zoom z/f/x/y entry points used one after the other on ONE caller-owned list (a window into a larger array with sentinels behind it): point x zoom z in 1..35 (quick: edge zooms) x step in 1..3: ids = GetSpatialIdsOnPoints(p,z); ChangeSpatialIdsZoom(ids, z-step) = GetSpatialIdsOnPoints(p, z-step), asked twice from the same list; zoom in by one level and back, and MergeSpatialIds of the children, return the ID; CheckSpatialIdsOverlap of the list's entry with its ancestor is true (inside the altitude range that check is documented for); the list is unchanged at the end; non-trivial = distinct (point, zoom, step) with negative altitude",
+					Body: func(c *engine.Ctx) {
+						p := pts[c.In("point", len(pts))]
+						z := zs[c.In("z", len(zs))]
+						step := int64(1 + c.In("step", 3))
+						if z-step < 0 || z < 1 {
+							c.Skip("no-coarser-zoom")
+						}
+						pt, err := object.NewPoint(p[0], p[1], p[2])
+						if err != nil {
+							c.Skip("point-rejected")
+						}
+						raw, e1 := shape.GetSpatialIdsOnPoints([]*object.Point{pt}, z)
+						want, e2 := shape.GetSpatialIdsOnPoints([]*object.Point{pt}, z-step)
+						d := map[string]any{"point": p, "zoom": z, "step": step}
+						if e1 != nil || e2 != nil || len(raw) != 1 || len(want) != 1 {
+							c.Violation("C09:spatial-id-point-lookup:error", d)
+							return
+						}
+						ids, chk := guardedList(raw)
+						id := raw[0]
+						d["id"], d["id_coarse"] = id, want[0]
+						c.Observe("%v %d %d %s %s", p, z, step, id, want[0])
+						if p[2] < 0 {
+							c.Nontrivial(fmt.Sprint(p, z, step))
+						}
+						c.Outcome(want[0])
+						for round := 0; round < 2; round++ {
+							out, e := integrate.ChangeSpatialIdsZoom(ids, z-step)
+							if e != nil || len(out) != 1 || out[0] != want[0] {
+								d["round"], d["got"], d["err"] = round, out, fmt.Sprint(e)
+								c.Violation("C09:spatial-id-zoom-out-differs-from-point-id-at-coarse-zoom", d)
+								return
+							}
+						}
+						// the radix-tree overlap check is documented for z >= 1 and -2^(z-1) <= f < 2^(z-1) only (C05)
+						inRange := func(sid string) bool {
+							v, ok := ref.ParseSpatial(sid)
+							return ok && v.H >= 1 && v.F >= -(int64(1)<<uint(v.H-1)) && v.F < int64(1)<<uint(v.H-1)
+						}
+						if inRange(ids[0]) && inRange(want[0]) {
+							c.Count("overlap_checked")
+							if ov, e := detector.CheckSpatialIdsOverlap(ids[0], want[0]); e != nil || !ov {
+								c.Violation("C09:spatial-ids-of-one-point-do-not-overlap", d)
+							}
+						}
+						if z < 35 {
+							fine, e := integrate.ChangeSpatialIdsZoom(ids, z+1)
+							if e != nil || len(fine) != 8 {
+								d["fine"] = fine
+								c.Violation("C09:spatial-id-zoom-in:not-8-children", d)
+							} else {
+								fl, fchk := guardedList(fine)
+								back, e3 := integrate.ChangeSpatialIdsZoom(fl, z)
+								merged, e4 := integrate.MergeSpatialIds(fl, z)
+								back2, e5 := integrate.ChangeSpatialIdsZoom(fl, z)
+								if e3 != nil || e5 != nil || len(back) != 1 || back[0] != id || len(back2) != 1 || back2[0] != id {
+									d["back"], d["back_again"] = back, back2
+									c.Violation("C09:spatial-id-zoom-in-then-out-does-not-return-the-id", d)
+								}
+								if e4 != nil || len(merged) != 1 || merged[0] != id {
+									d["merged"] = merged
+									c.Violation("C09:spatial-id-merging-all-children-does-not-return-the-id", d)
+								}
+								if m := fchk(); m != "" {
+									c.Violation("C09:spatial-id-operations-modify-the-callers-list["+m+"]", d)
+								}
+							}
+						}
+						if m := chk(); m != "" {
+							c.Violation("C09:spatial-id-operations-modify-the-callers-list["+m+"]", d)
+						}
+					}},
 			}
 		},
 	})
